@@ -261,8 +261,35 @@ def run_shard(ctx):
         ctx.run_given(st.tuples(strat, picks), lambda ex: check_case(ctx, L, ex), ctx.share(n), name=name)
     ctx.run_given(st.tuples(gen.streams(L, max_pairs=2, rare=False), st.data()), lambda ex: check_frontends(ctx, L, ex), ctx.share(300 if q else 5000), name="frontends")
     ctx.run_plain(lambda: very_large(ctx, L), "very-large")
+    if ctx.shard == 5:
+        for c in special_streams(L):
+            ctx.run_plain(lambda c=c: check_case(ctx, L, (c, [3, 17])), "special-stream")
     picks6 = st.lists(st.integers(0, 10**6), min_size=6, max_size=6)
     ctx.run_given(st.tuples(gen.messages(L, big=True), picks6), lambda ex: check_large(ctx, L, ex), ctx.share(500 if q else 8000), name="large")
+
+
+def special_streams(L):
+    """Hand-shaped well-formed streams with rare but valid message starts: a failed response carrying the TPM 1.2 style tag
+    TPM_ST_RSP_COMMAND (first byte 0x00) between two ordinary exchanges, and a header-only exchange repeated."""
+    b = gen.Builder(L, gen.FixedChooser(), big=False, rare=False)
+    toks, msgs = [], []
+
+    def add(kind, cc_name, mtoks, **extra):
+        msgs.append(dict({"kind": kind, "cc_name": cc_name, "cc": L.commands[cc_name]["code"], "first_token": len(toks), "n_tokens": len(mtoks), "sessions": None}, **extra))
+        toks.extend(mtoks)
+
+    c1, m1 = b.command("GetRandom", None)
+    add("Command", "GetRandom", c1, encrypt=False, decrypt=False)
+    r1, _ = b.response("GetRandom", None, failed=True, fail_code=0x1E)
+    r1[1][2] = 0x00C4
+    add("Response", "GetRandom", r1, failed=True, enc=False)
+    c2, _ = b.command("ReadClock", None)
+    add("Command", "ReadClock", c2, encrypt=False, decrypt=False)
+    r2, _ = b.response("ReadClock", None, failed=False)
+    add("Response", "ReadClock", r2, failed=False, enc=False)
+    meta = b.meta()
+    meta["messages"] = msgs
+    return [gen.Case("CommandResponseStream", toks, L, meta=meta)]
 
 
 def very_large(ctx, L):
